@@ -37,6 +37,9 @@
 (*      printed = model to the printed precision:                          *)
 (*      2 |printed - model| <= 1.05 units of the last printed digit        *)
 (*      (0.05: the 9-digit Dec projection of the model value)              *)
+(*  Num_Ea_Species Num_EA_Species  printed activation value = the value    *)
+(*      this specification computes from the SPECIES' H/RT or G/RT (witness *)
+(*      `wit`: barrier, reaction change, clamp at 0, times R*T)            *)
 (*  ReaderRaises, ReadBack (pmutt's reader returns, in file order, the     *)
 (*      reactions this specification reads in the same file)               *)
 (*  ReplayDoc (S->C: documents = the ones TLC expected)                     *)
@@ -161,6 +164,32 @@ ColumnClauses(M, entries, model, names) ==
           : k \in DOMAIN entries}
 ABE == <<"Num_A", "Num_Beta", "Num_Ea">>
 
+\* ---- activation value from the SPECIES (not from the reaction layer).  A witness w carries, for
+\* one reaction and one condition: form ("E" | "H" | "G"), hasts, the dimensionless species values
+\* <<coef, X_i/RT>> (X = H for the E and H forms, G for the G form, from the species objects' own
+\* get_HoRT / get_GoRT at the written T, P) of the initial state `is`, the transition state `ts`
+\* and the products `ps`, and rt = 1 (dimensionless forms) or R*T in the written unit.  Required:
+\*    E form:        sum(ts) - sum(is)                                   (Arrhenius, del_m = 1)
+\*    H and G forms: max(0, sum(ts) - sum(is) [if a TS exists], sum(ps) - sum(is))
+\* times rt.  The tolerance adds 2 units of the 7th digit of the largest term (Dec sums of
+\* 9-digit projections; the terms cancel).
+TermVals(side, rt) == [i \in DOMAIN side |-> Mul(Mul(I(side[i][1]), side[i][2]), rt)]
+SpeciesValue(w) ==
+   LET is == SumSeq(TermVals(w.is, w.rt))
+       barrier == Sub(SumSeq(TermVals(w.ts, w.rt)), is)
+       delta == Sub(SumSeq(TermVals(w.ps, w.rt)), is)
+   IN IF w.form = "E" THEN barrier
+      ELSE IF w.hasts THEN DMax(Zero, DMax(barrier, delta)) ELSE DMax(Zero, delta)
+WitScale(w) == MaxMagSeq(TermVals(w.is, w.rt) \o TermVals(w.ts, w.rt) \o TermVals(w.ps, w.rt))
+SpeciesOK(v, w) == LET d == DAbs(Sub(v, SpeciesValue(w)))
+                   IN Le(Add(d, d), Add(<<105, v[2] - 2>>, <<2, WitScale(w) - 7>>))
+\* entry k, columns cols (printed column -> index into the witness list of the reaction)
+SpeciesClauses(M, entries, wit, first, name) ==
+   UNION {UNION {UNION {Some(SpeciesOK(entries[k].nums[first + c - 1], wit[i].w[c]), name)
+                        : c \in {x \in 1..Len(wit[i].w) : first + x - 1 <= Len(entries[k].nums)}}
+                 : i \in {x \in Denotes(M, entries[k]) : wit[x].ok}}
+          : k \in DOMAIN entries}
+
 GasClauses(e, d) ==
    LET M == st.M IN
    Some(d.wf, "WellFormed")
@@ -168,6 +197,7 @@ GasClauses(e, d) ==
    \cup Some(GasSpeciesOK(M, d.sp), "EachOnceGasSpecies")
    \cup SectionClauses(M, d.rx, TRUE, TRUE)
    \cup ColumnClauses(M, d.rx, e.model, ABE)
+   \cup SpeciesClauses(M, d.rx, e.wit, 3, "Num_Ea_Species")
    \cup (IF st.hasexp
          THEN Some(InFile(M, d.rx) = {i \in DOMAIN M.rx : st.exp.gasrx[i] = 1}
                    /\ Range(d.sp) = Range(st.exp.gassp), "ReplayDoc")
@@ -183,6 +213,7 @@ SurfClauses(e, d) ==
    \cup Some(BulkOK(M, BulkNames(d)), "EachOnceBulk")
    \cup SectionClauses(M, d.rx, FALSE, TRUE)
    \cup ColumnClauses(M, d.rx, e.model, ABE)
+   \cup SpeciesClauses(M, d.rx, e.wit, 3, "Num_Ea_Species")
    \cup Some(\A k \in DOMAIN d.sites : \A j \in DOMAIN M.sites :
                 M.sites[j].name = d.sites[k].name => PrintedOK(d.sites[k].sden, M.sites[j].sden), "Num_Sden")
    \cup Some(\A k \in DOMAIN d.bulk : \A j \in DOMAIN M.sites :
@@ -201,6 +232,7 @@ EAClauses(e, d) ==
    \cup Some(d.count = Len(d.rows), "CountsMatch")
    \cup SectionClauses(M, d.rows, e.gas, FALSE)
    \cup ColumnClauses(M, d.rows, e.model, [c \in 1..e.ncond |-> "Num_EA"])
+   \cup SpeciesClauses(M, d.rows, e.wit, 1, "Num_EA_Species")
    \cup (IF st.hasexp
          THEN Some(d.count = IF e.gas THEN st.exp.neag ELSE st.exp.neas, "ReplayDoc")
          ELSE {})
